@@ -338,6 +338,20 @@ func runC10(r *vk.Run) {
 					return
 				}
 			}
+			// the empty label set is one label set however it was reached: three spellings joined by
+			// `or` are one series
+			q3 := `sum by (nosuch) (count_over_time({job="j"} | logfmt [20s])) or sum(count_over_time({job="j"} | logfmt [20s])) or sum by () (count_over_time({job="j"}[20s])) or vector(0)`
+			res3, err := evalQuery(&MemQuerier{Recs: recs, ErrAfter: -1}, q3, p)
+			c.Eval(1)
+			if err != nil {
+				c.Fail("", "query failed: "+q3+": "+err.Error(), det)
+				return
+			}
+			if len(res3.Series) != 1 || len(res3.Series[0].Labels) != 0 || len(res3.Series[0].Points) != 1 || res3.Series[0].Points[0].V != float64(len(recs)) {
+				det["result_empty_sets"] = res3
+				c.Fail("", fmt.Sprintf("%s: expected the single series {} = %d, got %d series", q3, len(recs), len(res3.Series)), det)
+				return
+			}
 			c.Count("identical_group_checks", 1)
 		}
 		c.Nontrivial(fmt.Sprintf("identical|%d", c.Idx))
